@@ -66,6 +66,7 @@ type FuncContract struct {
 	FrameProps  []string            // properties owning the frame obligations
 	FnParams    map[string][]string // function-typed parameter -> heaps it may write
 	Unproved    [][2]string         // obligation-name substring, reason: generated obligation is out of reach and only assumed (listed, never counted)
+	ASTParams   bool                // assume the AST invariant for interface / slice parameters
 	FnType      string              // non-empty: contract of every function value of this signature
 	ParamNames  []string            // for fntype contracts: names of the parameters
 }
@@ -234,6 +235,8 @@ func loadContracts(dir string) (*Contracts, error) {
 					if strings.TrimSpace(rest) == "ovf" {
 						cur.TracksOvf = true
 					}
+				case "astparams":
+					cur.ASTParams = true
 				case "trusted":
 					cur.Trusted = true
 				case "inline":
@@ -242,6 +245,11 @@ func loadContracts(dir string) (*Contracts, error) {
 					cur.HasModifies = true
 					for _, m := range strings.Split(rest, ",") {
 						m = strings.TrimSpace(m)
+						if m == "@ast" {
+							// read-only operation on an AST: fresh objects, library buffers, captured result flags and the package's private visitor helpers
+							cur.Modifies = append(cur.Modifies, "fresh", "Lib#content", "Cell#bool", "Cell#error", "binaryExprNameVisitor", "containsVarRefVisitor", "validateField", "Elem#string[]")
+							continue
+						}
 						if m != "" && m != "nothing" {
 							cur.Modifies = append(cur.Modifies, m)
 						}
